@@ -57,7 +57,7 @@ func (c *Ctx) evalCall(e *ast.CallExpr) Value {
 			case *types.Func:
 				return c.callFunc(o, Value{Kind: KNone}, c.evalArgs(e.Args), e)
 			case *types.Var:
-				return c.callFuncValue(id.Name, e)
+				return c.callValue(fun, e)
 			}
 			panic(engineErr("%s: call of %s not supported", x.pos(e.Pos()), id.Name))
 		}
@@ -94,7 +94,7 @@ func (c *Ctx) evalCall(e *ast.CallExpr) Value {
 		if _, ok := fun.(*ast.FuncLit); ok {
 			panic(engineErr("%s: call of function literal not supported", x.pos(e.Pos())))
 		}
-		panic(engineErr("%s: call form %s not supported", x.pos(e.Pos()), exprText(e.Fun)))
+		return c.callValue(fun, e)
 	}
 	// spec mode (untyped)
 	switch f := fun.(type) {
